@@ -229,11 +229,22 @@ func (e *Engine) loadTemplates(filtername string) error {
 		_ = json.Unmarshal(manifest, &e.Assetrewrites)
 	}
 
-	e.templates, err = e.compileDir(path.Join(e.Basedir, "template", "page"), "", filtername)
+	templates, err := e.compileDir(path.Join(e.Basedir, "template", "page"), "", filtername)
 	if err != nil {
 		atomic.StoreInt32(&e.templatesLoaded, 0) // bail out :(
 		return err
 	}
+
+	if filtername != "" && e.templates != nil {
+		// a filtered load replaces only the templates covered by the filter,
+		// templates loaded before (e.g. by a concurrent render in debug mode) stay available
+		for name, tpl := range e.templates {
+			if !strings.HasPrefix(name, filtername) {
+				templates[name] = tpl
+			}
+		}
+	}
+	e.templates = templates
 
 	e.Webpackserver = false
 	if e.CheckWebpack1337 {
